@@ -109,6 +109,7 @@ class PoolOracle:
     def __init__(self):
         self.abandoned = {}      # id(op) -> True
         self.expect = []         # list of sets of id(op)
+        self.where = {}          # id(set) -> (pool, container id, ops)
 
     def on_round(self, R, s, rd):
         ex = s.executor
@@ -126,6 +127,7 @@ class PoolOracle:
                     R.probe("retry_abandoned")
                 else:
                     self.expect.append(U)
+                    self.where[id(U)] = (r.pool_id, r.container_id, [o for o in r.ops if id(o) in U])
         for a in rd["asg"]:
             pr = prio_of.get(a.pipeline_id)
             if pr is None:
@@ -149,6 +151,15 @@ class PoolOracle:
                                                                 "unfinished_of_failed_container": len(U)}, t)
                     self.expect.remove(U)
                     R.probe("retry_assigned")
+        # "are retried": a retry that is due cannot be waiting while its pool is completely idle after the round -
+        # priority-pool assigns every queued job as long as the pool is not depleted
+        for U in self.expect:
+            pool_id, cid, ops = self.where[id(U)]
+            pl = ex.pools[pool_id]
+            idle = not pl.active_containers and not pl.suspending_containers and not any(a.pool_id == pool_id for a in rd["asg"])
+            if idle and all(o.state().value == "failed" for o in ops):
+                raise Violation("C16.retry_lost", {"pool": pool_id, "failed_container": cid, "operators": len(ops),
+                                                   "why": "pool idle after the round, doubled request below half of the pool, retry never issued"}, t)
 
 
 # ---------------------------------------------------------------------------
